@@ -4,6 +4,7 @@ import z3
 from engine import Unsupported
 from scen_sys import Sys
 from prog_timers import oracle_timers, oracle_restart_timers
+from prog_registry import RegistryProgram, oracle_registry
 from prog_mailbox import (oracle_containment, oracle_owning, MailboxProgram, oracle_fifo, oracle_own_result, oracle_resolves, oracle_stop_barrier,
                           oracle_backpressure, oracle_handles, oracle_liveness_flags)
 
@@ -15,7 +16,7 @@ def mailbox_programs(tier):
 
     def add(name, cap, scripts, hp=0, tag='q', **kw):
         d = dict(name=name, cap=cap, scripts=scripts, hp=hp, tag=tag, pre=(), started_actions=(), strategy='RestartOnly',
-                 faults=0, max_clock=None, K=None, max_steps=60, started=None, owning=False)
+                 faults=0, max_clock=None, K=None, max_steps=60, started=None, owning=False, registry=False, mt=False)
         d.update(kw)
         P.append(d)
     # FIFO across paths and clients, own result, stop barrier
@@ -63,12 +64,26 @@ def mailbox_programs(tier):
     add('own_consume', 1 if False else None, {'c1': [('o_send', O, 'a1'), ('consume', O)]}, owning=True)
     add('own_detach', None, {'c1': [('detach', O, 'a'), ('call', 'a', 'a1'), ('downgrade', 'a', 'w'), ('drop', 'a'), ('upgrade', 'w')]}, owning=True)
     add('own_join_killed', None, {'c1': [('o_call', O, 'a1'), ('join', O)]}, owning=True, faults=1, K=2)
+    # service registry (C08 / C14 consequences)
+    add('registry_sequential', None, {'c1': [('already_running',), ('from_registry', 'a'), ('already_running',), ('call', 'a', 'm1'), ('from_registry', 'b'), ('stop', 'a'), ('ping', 'b'), ('already_running',), ('from_registry', 'c'), ('try_from_registry',)]}, registry=True)
+    add('registry_register', None, {'c1': [('spawn', 'x'), ('register', 'x', 'x2'), ('spawn', 'y'), ('register', 'y'), ('try_from_registry', 'r'), ('stop', 'r'), ('ping', 'r'), ('spawn', 'z'), ('register', 'z', 'z2'), ('already_running',), ('unregister', 'u'), ('already_running',), ('unregister',)]}, registry=True)
+    add('registry_replace', None, {'c1': [('from_registry', 'a'), ('spawn', 'x'), ('replace', 'x', 'old'), ('from_registry', 'b'), ('ping', 'old'), ('unregister',), ('try_from_registry',)]}, registry=True)
+    add('registry_concurrent_lookup', None, {'c1': [('from_registry', 'a'), ('call', 'a', 'm1')], 'c2': [('from_registry', 'b'), ('call', 'b', 'm2')]}, registry=True)
+    add('registry_concurrent_lookup_mt', None, {'c1': [('from_registry', 'a'), ('call', 'a', 'm1')], 'c2': [('from_registry', 'b'), ('call', 'b', 'm2')]}, registry=True, mt=True, K=3)
+    add('registry_lookup_vs_register_mt', None, {'c1': [('from_registry', 'a')], 'c2': [('spawn', 'x'), ('register', 'x')]}, registry=True, mt=True, K=3)
+    add('registry_lookup_vs_register', None, {'c1': [('from_registry', 'a')], 'c2': [('spawn', 'x'), ('register', 'x')], 'c3': [('try_from_registry',), ('already_running',)]}, registry=True, K=3)
+    add('registry_respawn_race', None, {'c1': [('from_registry', 'a'), ('stop', 'a'), ('from_registry', 'b')], 'c2': [('from_registry', 'c'), ('ping', 'c')]}, registry=True, K=3, tag='t')
     return [p for p in P if tier == 'thorough' or p['tag'] == 'q']
 
 
 def evaluate(tr, status, cap, scripts, spec=None):
     """all oracles on one trace -> {pid: [messages]} (cap: None | int)"""
     out = {k: [] for k in PIDS}
+    if spec is not None and spec.get('registry'):
+        out['C08'] += oracle_registry(tr, status, scripts)
+        out['C02'] += oracle_resolves(tr, status, scripts)
+        out['C02'] += oracle_own_result(tr, scripts)
+        return out
     out['C01'] += oracle_fifo(tr, scripts)
     out['C02'] += oracle_own_result(tr, scripts)
     out['C02'] += oracle_resolves(tr, status, scripts)
@@ -86,10 +101,12 @@ def evaluate(tr, status, cap, scripts, spec=None):
         out['C06'] += oracle_containment(tr, status, scripts)
         if spec.get('owning'):
             out['C17'] += oracle_owning(tr, status, scripts)
+        if spec.get('registry'):
+            out['C08'] += oracle_registry(tr, status, scripts)
     return out
 
 
-PIDS = ('C01', 'C02', 'C04', 'C05', 'C06', 'C07', 'C10', 'C12', 'C14', 'C15', 'C17')
+PIDS = ('C01', 'C02', 'C04', 'C05', 'C06', 'C07', 'C08', 'C10', 'C12', 'C14', 'C15', 'C17')
 
 
 def run(functions, enums, repo, tier, max_steps=60, seed=0, validate=None):
@@ -113,13 +130,17 @@ def run(functions, enums, repo, tier, max_steps=60, seed=0, validate=None):
         sy.user_script['started_actions'] = spec['started_actions']
         for k, v in (spec['started'] or {}).items():
             sy.user_script[('started', k)] = v
-        p = MailboxProgram(sy, cap, scripts, handler_pending=hp, max_steps=spec['max_steps'], pre=pre)
+        cls = RegistryProgram if spec['registry'] else MailboxProgram
+        p = cls(sy, cap, scripts, handler_pending=hp, max_steps=spec['max_steps'], pre=pre)
         p.faults = spec['faults']
+        if spec['mt']:
+            from scen_sys import mt_yield_hook
+            sy.eng.yield_hook = mt_yield_hook
         p.owning = spec['owning']
         if spec['max_clock'] is not None:
             p.max_clock = spec['max_clock']
         p.max_preemptions = spec['K']
-        native_ok = not spec['owning'] and not spec['started_actions'] and not spec['faults'] and not spec['started'] and \
+        native_ok = not spec['registry'] and not spec['owning'] and not spec['started_actions'] and not spec['faults'] and not spec['started'] and \
             not any(str(op[2]).startswith('panic') for sc in scripts.values() for op in sc if len(op) > 2)
         st = p.setup()
         n = 0
@@ -213,7 +234,7 @@ def run(functions, enums, repo, tier, max_steps=60, seed=0, validate=None):
             stats['modelled'][k] = stats['modelled'].get(k, 0) + v
         for k, v in e.stats.opaque.items():
             stats['opaque'][k] = stats['opaque'].get(k, 0) + v
-        stats['programs'].append(dict(name=name, capacity=str(cap), pre=[list(o) for o in pre], started_actions=[list(a) for a in spec['started_actions']], faults=spec['faults'], strategy=spec['strategy'], max_preemptions=spec['K'], max_clock=spec['max_clock'], scripts={k: [list(o) for o in v] for k, v in scripts.items()}, handler_pending=hp, schedules=n))
+        stats['programs'].append(dict(name=name, multi_threaded_yield_points=spec['mt'], capacity=str(cap), pre=[list(o) for o in pre], started_actions=[list(a) for a in spec['started_actions']], faults=spec['faults'], strategy=spec['strategy'], max_preemptions=spec['K'], max_clock=spec['max_clock'], scripts={k: [list(o) for o in v] for k, v in scripts.items()}, handler_pending=hp, schedules=n))
     stats['wall_s'] = time.time() - t0
     stats['distinct_traces'] = len(distinct)
     stats['functions'] = sorted(stats['functions'])
